@@ -1335,10 +1335,8 @@ class DeflateBuffer:
         # zip bomb vulnerability as it will decompress all remaining data at once.
         assert not chunk
 
-        if self.size > 0:
-            # decompressor is not brotli unless encoding is "br"
-            if self.encoding == "deflate" and not self.decompressor.eof:  # type: ignore[union-attr]
-                raise ContentEncodingError("deflate")
+        if self.size > 0 and not self.decompressor.eof:
+            raise ContentEncodingError(self.encoding)
 
         self.out.feed_eof()
 
